@@ -84,16 +84,28 @@
 (*                example); Emit carries the flag `mink`.                  *)
 (* laws that hold for the code AS WRITTEN (TIES = "even", MODFIX = FALSE): *)
 (*   all but IndexCol (needs COLFIX), WithvecOK (needs WVFIX) and          *)
-(*   FindLatticeAnyDir (needs NTRYFIX); with TIES = "any" Variant and      *)
-(*   NoFlaw need MODFIX.  Configurations:                                  *)
-(*   _q/_t/_deep (as written except COLFIX, WVFIX), _qf/_tf (all three     *)
-(*   repairs), _asis_col/_asis_wv/_asis_ntry/_ties/_ties_flaw (one missing:*)
-(*   the counterexample is replayed on the real code), _asis_wv_emit       *)
-(*   (withvec records of the code as written), _ties_fixed, _mink.         *)
+(*   FindLatticeAnyDir (needs NTRYFIX); with TIES = "any" Variant, NoFlaw  *)
+(*   and Stable need MODFIX.  With TIES = "even" MODFIX changes nothing    *)
+(*   (round half to even never takes a step of equal length): _q and _qf   *)
+(*   emit the same records.  Configurations:                               *)
+(*   _q / _t / _deep  code as written on exact input, with COLFIX, WVFIX,  *)
+(*          NTRYFIX = TRUE (the as-written 'col' / n_try results are       *)
+(*          emitted next to the law's)                                     *)
+(*          (FindLatticeOK / FindLatticeAnyDir: _q, _qf, _deep only - they *)
+(*          do not depend on the size of the scrambling)                   *)
+(*   _qf    _q with MODFIX = TRUE        _ties_fixed  TIES = "any", MODFIX *)
+(*   _asis_col / _asis_wv / _asis_ntry / _ties / _ties_flaw (VIEW ViewCore)*)
+(*          one repair missing: TLC refutes IndexCol / WithvecOK /         *)
+(*          FindLatticeAnyDir / Variant / NoFlaw; the harness replays the  *)
+(*          counterexample on the real code                                *)
+(*   _asis_wv_emit(_t)  the withvec records of the code as written         *)
+(*   _mink  observation: MinkAlways refuted                                *)
 (* Emit: one record per finished case: kind "red" (reduction, probes with  *)
-(*   the as-written 'col' results nearcol_asis / coltie, scores, iter3d,   *)
-(*   three find_lattice runs) and kind "wv" (one per withvec outcome).     *)
-(* bounds: |entries| < 100, MAXIT = 10, <= ~7000 scramblings per cell.     *)
+(*   the as-written 'col' results nearcol_asis / coltie, scores <<tol, law,*)
+(*   as-written col>>, iter3d, three find_lattice runs fl and their        *)
+(*   as-written 'col' default flcol3) and kind "wv" (one per withvec       *)
+(*   outcome: remainder sign e, replaced vector w, BadVectors or basis).   *)
+(* bounds: |entries| < 100, MAXIT = 10, <= 2428 scramblings per cell.      *)
 (***************************************************************************)
 EXTENDS ExactLA, Json
 
@@ -134,7 +146,7 @@ PRot  == << <<0,-1,0>>, <<1,0,0>>, <<0,0,1>> >>
 PMir  == << <<1,0,0>>, <<0,0,-1>>, <<0,-1,0>> >>      \* det -1
 Prod2(P, A, B) == M2T(MM(P, MM(A, B)))
 SCR_q == { Prod2(P, A, B) : P \in {I3, PSwap, PRot}, A \in Sh({-1,1}), B \in Sh({-1,2}) }
-SCR_t == { Prod2(P, A, B) : P \in {I3, PCyc, PSwap, PNeg, PRot, PMir}, A \in Sh({-2,-1,1,2}), B \in Sh({-2,-1,1,2,3}) }
+SCR_t == { Prod2(P, A, B) : P \in {I3, PCyc, PSwap, PNeg, PRot, PMir}, A \in Sh({-1,1,2}), B \in Sh({-1,2,3}) }
           \cup { M2T(MM(A, Prod2(I3, B, C))) : A \in Sh({-1,1}), B \in Sh({-1,1}), C \in Sh({-1,1}) }
 SCR_deep == { M2T(MM(Prod2(I3, A, B), Prod2(I3, A, B))) : A \in Sh({-3,2}), B \in Sh({-2,3}) }   \* large skews: sweep count
 SCRWV_q == { I3, PSwap, Prod2(I3, M2T(Shear(1,2,1)), M2T(Shear(3,1,-1))) }
@@ -390,7 +402,7 @@ FindLatticeOK == Fin1 =>
       \* FLStatus counts lattice membership: right because no triple has index > 2
       /\ \A t \in {IT6[a] : a \in 1..Len(IT6)} : Abs(Det(FLB(FLVecs, t))) <= 2 * Abs(Det(v0))
       /\ \A t \in {IT4[a] : a \in 1..Len(IT4)} : Abs(Det(FLB(FL2Vecs, t))) <= 2 * Abs(Det(v0))
-FindLatticeAnyDir == Fin1 => FLRunsColDefault = FLRuns
+FindLatticeAnyDir == Fin1 => (NTRYFIX \/ FLRunsColDefault = FLRuns)      \* (NTRYFIX: FLRunsColDefault is FLRuns)
 \* Minkowski reduction (brute force over coefficients -1..1, sorted by length) - not promised by the code
 LenPerm(A) == CHOOSE p \in {q \in Idx \X Idx \X Idx : q[1] # q[2] /\ q[1] # q[3] /\ q[2] # q[3]} :
                  Norm2(A[p[1]]) <= Norm2(A[p[2]]) /\ Norm2(A[p[2]]) <= Norm2(A[p[3]])
